@@ -55,6 +55,13 @@ def run(prog, tier):
     except AnalysisError as e:
         deferred = e          # raised at the end unless another rule reports a definite violation (a verdict beats "not understood")
 
+    # an override of get_interval in a concrete chain class carries the same obligations as the inherited one
+    for sub in prog.subclasses("MarkovChain"):
+        if "get_interval" in sub.methods:
+            try:
+                obs.extend(_parallel(prog, sub, sub.methods["get_interval"]))
+            except AnalysisError as e:
+                deferred = deferred or e
     # the columns the read-outs pair up row by row grow together: nothing that runs user code sits between the stores of one step
     for cname in ("MetropolisChain", "GibbsChain", "PcaChain", "HamiltonianChain"):
         obs.append(_commit_together(prog, cname, 3 if tier == "thorough" else 2))
@@ -331,6 +338,17 @@ def _slice_form(c, fn, st, gname):
             okb = U(base) == f"self.{want_store}"
         if not okb:
             problems.append(f"slice applied to `{U(base)}` not to the store {want_store}")
+    # what is done to the sliced store afterwards keeps one row per retained sample for EVERY selection, the empty one included:
+    # `array(rows).T[index]` picks a column through the transpose, which has no second axis when no row is retained (IndexError
+    # where `[:, index]` / a per-row comprehension returns an empty array)
+    if len(subs) == 1 and not problems:
+        for r_ in ast.walk(fn):
+            if isinstance(r_, ast.Return) and r_.value is not None:
+                for x in ast.walk(r_.value):
+                    if isinstance(x, ast.Subscript) and isinstance(x.value, ast.Attribute) and x.value.attr == "T" \
+                            and any(y is subs[0] for y in ast.walk(x.value.value)):
+                        problems.append(f"`{U(x)[:80]}` indexes the transpose of the retained rows: with no row retained there is no such axis "
+                                        f"(the read-out raises instead of returning an empty array)")
     # burn / thin used nowhere else
     uses = [x for x in ast.walk(fn) if isinstance(x, ast.Name) and x.id in (burn, thin) and isinstance(x.ctx, ast.Load)]
     if len(uses) != 2 * max(len(subs), 1) and len(subs) == 1:
@@ -545,12 +563,15 @@ def _parallel(prog, c, fn):
         cut_txt = fused[0]["_c"] if fused else idxs[cut_pos[0]][:-1]
         try:
             ct = ast.parse(cut_txt, mode="eval").body
+            own_counts = (f"{names[1]}.size", f"len({names[1]})", f"{names[1]}.shape[0]")
             ab, seen = abstract(ct, [("_p.size", "N"), ("len(_p)", "N"), ("_p.shape[0]", "N")])
             ex = Expander(prog, c.module, c)
             cut = ex.eval(ab, {"N": R.sym("N"), "interval": R.sym("interval")})
             okc = cut.eq(anf.fn_("int", R.sym("N") * (R.const(1) - R.sym("interval")))) \
-                and all(names[1] in t_ for ts in seen.values() for t_ in ts)
-            why = f"ascending argsort then cut at `{cut_txt[:120]}`"
+                and all(str(t_) in own_counts for ts in seen.values() for t_ in ts)
+            why = f"ascending argsort then cut at `{cut_txt[:120]}`" + (
+                "" if all(str(t_) in own_counts for ts in seen.values() for t_ in ts) else
+                f": the row count is taken from `{[str(t_) for ts in seen.values() for t_ in ts if str(t_) not in own_counts][0]}`, not from the array `{names[1]}` that is cut")
             # N is the number of rows being cut: where the cut index is held in a local, the log-probabilities are not shortened
             # (thinned, trimmed) between its computation and the cut - a re-ordering keeps the count
             if okc:
